@@ -490,8 +490,36 @@ func main() {
 		}
 		return v
 	})
+	r.RegisterReplay("life", func(pj json.RawMessage) *mc.Viol {
+		var p lifeP
+		json.Unmarshal(pj, &p)
+		var v *mc.Viol
+		if pn := mc.CatchStack(func() { v = runLife(p) }); pn != "" {
+			return &mc.Viol{Sig: "type3 honest flow panics in the life of one client object: " + trunc(pn, 60), What: pn}
+		}
+		return v
+	})
 	if r.IsReplay() {
 		r.DoReplay()
+	}
+	// the life of one type-3 client object across origins and issuers
+	{
+		var lives []lifeP
+		for sib := 0; sib < 3; sib++ {
+			for ord := 0; ord < 2; ord++ {
+				lives = append(lives, lifeP{Sibling: sib, Order: ord, RSA: sib % 2})
+			}
+		}
+		r.Par(len(lives), func(i int) {
+			var v *mc.Viol
+			if pn := mc.CatchStack(func() { v = runLife(lives[i]) }); pn != "" {
+				v = &mc.Viol{Sig: "type3 honest flow panics in the life of one client object: " + trunc(pn, 60), What: pn}
+			}
+			if v != nil {
+				r.Violation("life", lives[i], v)
+			}
+			r.Case(fmt.Sprintf("life-%+v", lives[i]), true, "type3 life of one client object: six honest issuances, all valid")
+		})
 	}
 
 	var cases []P
